@@ -5,10 +5,14 @@ import (
 	"fmt"
 	"math"
 	"math/big"
+	"math/rand/v2"
 
 	"gonum.org/v1/gonum/mat"
 	"gonum.org/v1/gonum/spatial/r1"
+	"gonum.org/v1/gonum/stat/distmat"
 	"gonum.org/v1/gonum/stat/distmv"
+	"gonum.org/v1/gonum/stat/distuv"
+	"gonum.org/v1/gonum/stat/samplemv"
 
 	"gonum.org/v1/gonum/verifharness/internal/core"
 )
@@ -33,6 +37,8 @@ type mvCheck struct {
 
 type mvCase struct {
 	Kind   string     `json:"kind"`
+	Ctor   string     `json:"ctor,omitempty"` // normal: "" = NewNormal | "chol" = NewNormalChol | "prec" = NewNormalPrecision
+	Prec   [][]int64  `json:"prec,omitempty"` // the integer inverse of Sigma (ctor = prec)
 	Mu     []int64    `json:"mu"`
 	Sigma  [][]int64  `json:"sigma"`
 	Nu     int64      `json:"nu"`
@@ -163,16 +169,35 @@ type mvObj struct {
 	t      *distmv.StudentsT
 	unif   *distmv.Uniform
 	dir    *distmv.Dirichlet
+	wish   *distmat.Wishart
+	eigen  *mat.EigenSym // kind "eigen": the decomposition of the (possibly indefinite) printed matrix
 }
 
 func buildMv(c *mvCase) (o mvObj, err error) {
 	switch c.Kind {
 	case "normal":
-		n, ok := distmv.NewNormal(floats(c.Mu), symOf(c.Sigma), nil)
-		if !ok {
-			return o, fmt.Errorf("NewNormal reports that the covariance %v = L*L^T is not positive definite", c.Sigma)
+		switch c.Ctor {
+		case "":
+			n, ok := distmv.NewNormal(floats(c.Mu), symOf(c.Sigma), nil)
+			if !ok {
+				return o, fmt.Errorf("NewNormal reports that the covariance %v = L*L^T is not positive definite", c.Sigma)
+			}
+			o.normal = n
+		case "chol":
+			var ch mat.Cholesky
+			if !ch.Factorize(symOf(c.Sigma)) {
+				panic(evalErr{"harness: the printed covariance has no Cholesky factorization"})
+			}
+			o.normal = distmv.NewNormalChol(floats(c.Mu), &ch, nil)
+		case "prec":
+			n, ok := distmv.NewNormalPrecision(floats(c.Mu), symOf(c.Prec), nil)
+			if !ok {
+				return o, fmt.Errorf("NewNormalPrecision reports that the precision matrix %v is not positive definite", c.Prec)
+			}
+			o.normal = n
+		default:
+			panic(evalErr{"harness: unknown constructor " + c.Ctor})
 		}
-		o.normal = n
 	case "studentst":
 		t, ok := distmv.NewStudentsT(floats(c.Mu), symOf(c.Sigma), float64(c.Nu), nil)
 		if !ok {
@@ -187,6 +212,18 @@ func buildMv(c *mvCase) (o mvObj, err error) {
 		o.unif = distmv.NewUniform(b, nil)
 	case "dirichlet":
 		o.dir = distmv.NewDirichlet(floats(c.Mu), nil)
+	case "eigen":
+		var es mat.EigenSym
+		if !es.Factorize(symOf(c.Sigma), true) {
+			return o, fmt.Errorf("EigenSym.Factorize fails on %v", c.Sigma)
+		}
+		o.eigen = &es
+	case "wishart":
+		w, ok := distmat.NewWishart(symOf(c.Sigma), float64(c.Nu), nil)
+		if !ok {
+			return o, fmt.Errorf("NewWishart reports that the scale matrix %v = L*L^T is not positive definite", c.Sigma)
+		}
+		o.wish = w
 	default:
 		panic(evalErr{"harness: unknown multivariate kind " + c.Kind})
 	}
@@ -308,11 +345,186 @@ func (ck *mvCheck) run(c *mvCase, o mvObj, st *ratStats) (ok bool, msg string) {
 	case "ProbRatioSq":
 		q := o.t.Prob(x) / o.t.Prob(y)
 		return scalar(q * q)
+	case "EigenPosPart":
+		pp := distmv.NewPositivePartEigenSym(o.eigen)
+		if ok, msg := cmpVec(pp.RawValues(), ck.V, ck.Tol, st, what+":RawValues"); !ok {
+			return false, "RawValues " + msg
+		}
+		if r, cdim := pp.Dims(); float64(r) != floatOf(ck.R[0], ck.R[1], ck.R[2]) || r != cdim || pp.SymmetricDim() != r {
+			return false, fmt.Sprintf("Dims = %d, %d, SymmetricDim = %d", r, cdim, pp.SymmetricDim())
+		}
+		if ok, msg := cmpSym(pp, ck.M, ck.Tol, st, what+":At"); !ok {
+			return false, "At " + msg
+		}
+		n := len(ck.M)
+		for i := 0; i < n; i++ {
+			for j := 0; j < n; j++ {
+				if ok, msg := near(pp.T().At(i, j), valueOf(ck.M[j][i]), ck.Tol, 1, st, what+":T"); !ok {
+					return false, fmt.Sprintf("T().At(%d,%d) %s", i, j, msg)
+				}
+			}
+		}
+		if pp.RawQ() != o.eigen.RawQ() {
+			return false, "RawQ is not the wrapped decomposition's"
+		}
+		return true, ""
+	case "EigenRandCov":
+		// x = c (a vector), y = the mean, v = [c . mean] when the draws must lie in the hyperplane c . (x - mean) = 0
+		src := rand.NewPCG(11, 13)
+		raw := core.Call(func() { distmv.NormalRandCov(nil, y, o.eigen, src) })
+		if ck.R[0] == 1 {
+			if !raw.Panicked || raw.Runtime {
+				return false, "NormalRandCov accepts an EigenSym with a negative eigenvalue (the documentation says it panics)"
+			}
+		} else if ck.R[0] == 0 && raw.Panicked {
+			return false, "NormalRandCov panicked on a positive semi-definite EigenSym: " + raw.Text
+		}
+		pp := distmv.NewPositivePartEigenSym(o.eigen)
+		for k := 0; k < 50; k++ {
+			d := distmv.NormalRandCov(nil, y, pp, src)
+			dot := 0.0
+			for i, v := range d {
+				if math.IsNaN(v) || math.IsInf(v, 0) {
+					return false, fmt.Sprintf("draw %v is not finite", d)
+				}
+				dot += x[i] * v
+			}
+			if len(ck.V) == 1 {
+				if ok, msg := near(dot, valueOf(ck.V[0]), ck.Tol, 10, st, what); !ok {
+					return false, fmt.Sprintf("draw %v: c . x with c = %v %s", d, x, msg)
+				}
+			}
+		}
+		return true, ""
+	case "ProposalLogProbDiff":
+		pn, ok := samplemv.NewProposalNormal(symOf(c.Sigma), nil)
+		if !ok {
+			return false, "NewProposalNormal reports failure"
+		}
+		a, b := pn.ConditionalLogProb(x, y), pn.ConditionalLogProb(y, y)
+		if ok, msg := near(a-b, valueOf(ck.R), ck.Tol, math.Max(math.Abs(a), math.Abs(b)), st, what); !ok {
+			return false, msg
+		}
+		if rev := pn.ConditionalLogProb(y, x); math.Abs(rev-a) > 1e-10*math.Max(1, math.Abs(a)) {
+			return false, fmt.Sprintf("log p(x | y) = %v but log p(y | x) = %v", a, rev)
+		}
+		return true, ""
+	case "WishartLogProbDiff":
+		// through LogProbSym and through LogProbSymChol of the Cholesky factorizations
+		n := len(c.Sigma)
+		xs, ys := symFlat(n, x), symFlat(n, y)
+		a, b := o.wish.LogProbSym(xs), o.wish.LogProbSym(ys)
+		if ok, msg := near(a-b, valueOf(ck.R), ck.Tol, math.Max(math.Abs(a), math.Abs(b)), st, what); !ok {
+			return false, "LogProbSym: " + msg
+		}
+		var cx, cy mat.Cholesky
+		if !cx.Factorize(xs) || !cy.Factorize(ys) {
+			panic(evalErr{"harness: the printed matrices have no Cholesky factorization"})
+		}
+		a, b = o.wish.LogProbSymChol(&cx), o.wish.LogProbSymChol(&cy)
+		if ok, msg := near(a-b, valueOf(ck.R), ck.Tol, math.Max(math.Abs(a), math.Abs(b)), st, what); !ok {
+			return false, "LogProbSymChol: " + msg
+		}
+		return true, ""
+	case "WishartProbMinusExp":
+		xs := symFlat(len(c.Sigma), x)
+		p, e := o.wish.ProbSym(xs), math.Exp(o.wish.LogProbSym(xs))
+		return near(p-e, valueOf(ck.R), ck.Tol, math.Max(p, e), st, what)
+	case "WishartNotPD":
+		xs := symFlat(len(c.Sigma), x)
+		if p := o.wish.ProbSym(xs); p != 0 {
+			return false, fmt.Sprintf("ProbSym = %v, want 0", p)
+		}
+		if lp := o.wish.LogProbSym(xs); !math.IsInf(lp, -1) {
+			return false, fmt.Sprintf("LogProbSym = %v, want -Inf", lp)
+		}
+		return true, ""
+	case "WishartProb1":
+		xs := symFlat(1, x)
+		return scalar(o.wish.ProbSym(xs) / math.Exp(y[0]))
+	case "WishartMean":
+		var m mat.SymDense
+		o.wish.MeanSymTo(&m)
+		return cmpSym(&m, ck.M, ck.Tol, st, what)
 	case "ExpEntropy":
 		return scalar(math.Exp(o.unif.Entropy()))
+	case "Dim":
+		switch {
+		case o.normal != nil:
+			return scalar(float64(o.normal.Dim()))
+		case o.t != nil:
+			return scalar(float64(o.t.Dim()))
+		case o.unif != nil:
+			return scalar(float64(o.unif.Dim()))
+		}
+		return scalar(float64(o.dir.Dim()))
+	case "EntropyPlusLogProbMean":
+		h, lp := o.normal.Entropy(), o.normal.LogProb(o.normal.Mean(nil))
+		return near(h+lp, valueOf(ck.R), ck.Tol, math.Max(math.Abs(h), math.Abs(lp)), st, what)
+	case "ExpEntropyVsUnit":
+		// the standard normal law of the same dimension
+		n := len(c.Mu)
+		id := mat.NewSymDense(n, nil)
+		for i := 0; i < n; i++ {
+			id.SetSym(i, i, 1)
+		}
+		unit, _ := distmv.NewNormal(make([]float64, n), id, nil)
+		return scalar(math.Exp(o.normal.Entropy() - unit.Entropy()))
+	case "ProbMinusExpLogProb":
+		p, e := o.normal.Prob(x), math.Exp(o.normal.LogProb(x))
+		return near(p-e, valueOf(ck.R), ck.Tol, math.Max(p, e), st, what)
+	case "NormalLogProbDiff":
+		var ch mat.Cholesky
+		if !ch.Factorize(symOf(c.Sigma)) {
+			panic(evalErr{"harness: the printed covariance has no Cholesky factorization"})
+		}
+		a, b := distmv.NormalLogProb(x, floats(c.Mu), &ch), distmv.NormalLogProb(y, floats(c.Mu), &ch)
+		return near(a-b, valueOf(ck.R), ck.Tol, math.Max(math.Abs(a), math.Abs(b)), st, what)
+	case "TransformNormal":
+		curScale = dataScale(c, ck)
+		// into nil, into a destination, in place
+		if ok, msg := cmpVec(o.normal.TransformNormal(nil, x), ck.V, ck.Tol, st, what); !ok {
+			return false, "(dst = nil) " + msg
+		}
+		dst := make([]float64, len(x))
+		for i := range dst {
+			dst[i] = 77
+		}
+		if ok, msg := cmpVec(o.normal.TransformNormal(dst, x), ck.V, ck.Tol, st, what); !ok {
+			return false, "(into a destination) " + msg
+		}
+		z := append([]float64(nil), x...)
+		o.normal.TransformNormal(z, z)
+		if ok, msg := cmpVec(z, ck.V, ck.Tol, st, what); !ok {
+			return false, "(in place) " + msg
+		}
+		return true, ""
+	case "QuantileIsTransform":
+		z := make([]float64, len(x))
+		for i, p := range x {
+			z[i] = distuv.UnitNormal.Quantile(p)
+		}
+		q, t := o.normal.Quantile(nil, x), o.normal.TransformNormal(nil, z)
+		curScale = dataScale(c, ck)
+		for i := range q {
+			if ok, msg := near(q[i]-t[i], new(big.Rat), ck.Tol, math.Max(curScale, math.Max(math.Abs(q[i]), math.Abs(t[i]))), st, what); !ok {
+				return false, fmt.Sprintf("Quantile(p)[%d] = %v, TransformNormal(standard normal quantiles of p)[%d] = %v: difference %s", i, q[i], i, t[i], msg)
+			}
+		}
+		return true, ""
+	case "SetMeanLogProbDiff":
+		o.normal.SetMean(x)
+		if ok, msg := cmpVec(o.normal.Mean(nil), ck.V, "exact", st, what+":Mean"); !ok {
+			return false, "Mean after SetMean " + msg
+		}
+		a, b := o.normal.LogProb(y), o.normal.LogProb(x)
+		return near(a-b, valueOf(ck.R), ck.Tol, math.Max(math.Abs(a), math.Abs(b)), st, what)
 	case "CDF":
 		return cmpVec(o.unif.CDF(nil, x), ck.V, ck.Tol, st, what)
 	case "Quantile":
+		if o.normal != nil {
+			return cmpVec(o.normal.Quantile(nil, x), ck.V, ck.Tol, st, what)
+		}
 		return cmpVec(o.unif.Quantile(nil, x), ck.V, ck.Tol, st, what)
 	case "Prob":
 		if o.unif != nil {
@@ -353,6 +565,9 @@ func replayMv(in *core.Lines, args []string, seed int64, sum *core.Summary) erro
 			sum.Sample(small)
 		}
 		where := fmt.Sprintf("distmv %s mu=%v sigma=%v nu=%d box=%v", c.Kind, c.Mu, c.Sigma, c.Nu, c.Box)
+		if c.Ctor != "" {
+			where += " built by " + map[string]string{"chol": "NewNormalChol", "prec": "NewNormalPrecision"}[c.Ctor]
+		}
 		one := func(ck *mvCheck) mvCase {
 			d := c
 			d.Checks = []mvCheck{*ck}
@@ -374,7 +589,11 @@ func replayMv(in *core.Lines, args []string, seed int64, sum *core.Summary) erro
 					if err != nil {
 						panic(evalErr{err.Error()})
 					}
-					obj.unif.Quantile(nil, vecOf(ck.X))
+					if obj.normal != nil {
+						obj.normal.Quantile(nil, vecOf(ck.X))
+					} else {
+						obj.unif.Quantile(nil, vecOf(ck.X))
+					}
 				default:
 					// every check works on a fresh object: the operations must not depend on earlier calls
 					obj, err := buildMv(&c)
@@ -397,7 +616,8 @@ func replayMv(in *core.Lines, args []string, seed int64, sum *core.Summary) erro
 			} else if wantPanic {
 				ok, msg = false, "returned, the documentation says it panics"
 			}
-			if sig := "dist:distmv." + c.Kind + "." + ck.Op; !ok && st.seen[sig] {
+			ctorName := map[string]string{"": "", "chol": "NewNormalChol.", "prec": "NewNormalPrecision."}[c.Ctor]
+			if sig := "dist:distmv." + c.Kind + "." + ctorName + ck.Op; !ok && st.seen[sig] {
 				sum.Count("failed_checks", 1)
 			} else if !ok {
 				st.seen[sig] = true
